@@ -130,7 +130,7 @@ func ROverlapNeg(c *core.Ctx) {
 								return true, types.ExprString(sel.X) == recv
 							}
 							if call, ok := e.(*ast.CallExpr); ok {
-								if fn := core.Callee(info, call); fn != nil && (fn.Name() == "firstMatchedCharOfMulti" || fn.Name() == "FirstCharOfOneOrMulti") {
+								if fn := core.Callee(info, call); fn != nil && (core.BaseName(fn) == "firstMatchedCharOfMulti" || core.BaseName(fn) == "FirstCharOfOneOrMulti") {
 									return true, false
 								}
 							}
@@ -212,7 +212,7 @@ func RCaseBit(c *core.Ctx) {
 				if !ok {
 					return true
 				}
-				if fn := core.Callee(info, call); fn != nil && fn.Name() == "containsAsciiIgnoreCaseCharacter" {
+				if fn := core.Callee(info, call); fn != nil && core.BaseName(fn) == "containsAsciiIgnoreCaseCharacter" {
 					for _, l := range as.Lhs {
 						if id, ok := l.(*ast.Ident); ok {
 							letterVars[info.ObjectOf(id)] = true
@@ -545,7 +545,7 @@ func RLookFact(c *core.Ctx) {
 				}
 				if len(as.Rhs) == 1 {
 					if call, ok := ast.Unparen(as.Rhs[0]).(*ast.CallExpr); ok && i == 0 {
-						if cal := core.Callee(info, call); cal != nil && strings.Contains(cal.Name(), "PositiveLookahead") {
+						if cal := core.Callee(info, call); cal != nil && strings.Contains(core.BaseName(cal), "PositiveLookahead") {
 							fromFinder[obj] = true
 						}
 					}
@@ -723,7 +723,7 @@ func REndChild(c *core.Ctx) {
 					}
 				}
 			case *ast.CallExpr:
-				if fn := core.Callee(info, y); fn != nil && (fn.Name() == "ReplaceChild" || fn.Name() == "InsertChild") && len(y.Args) > 0 {
+				if fn := core.Callee(info, y); fn != nil && (core.BaseName(fn) == "ReplaceChild" || core.BaseName(fn) == "InsertChild") && len(y.Args) > 0 {
 					if id, ok := ast.Unparen(y.Args[0]).(*ast.Ident); ok {
 						if obj := info.ObjectOf(id); obj != nil {
 							if _, seen := idxVars[obj]; !seen {
@@ -864,7 +864,7 @@ func RCatPred(c *core.Ctx) {
 						}
 					}
 					bad = "a call through a function value: " + types.ExprString(call.Fun)
-				case fn.Pkg() != nil && fn.Pkg().Path() == "unicode" && (fn.Name() == "Is" || fn.Name() == "In"):
+				case fn.Pkg() != nil && fn.Pkg().Path() == "unicode" && (core.BaseName(fn) == "Is" || core.BaseName(fn) == "In"):
 					usesIs = true
 				case isUniPred(fn):
 					bad = "unicode." + fn.Name()
@@ -913,31 +913,57 @@ func RLazyFull(c *core.Ctx) {
 			if fd.Body == nil || p.IsTestFile(fd.Pos()) {
 				continue
 			}
+			// a function that tests a slice field against nil (`if x.F == nil { build }` or
+			// `if x.F != nil { return }; build`) and stores a made slice into that field
+			tested := map[*types.Var]bool{}
 			ast.Inspect(fd.Body, func(x ast.Node) bool {
 				ifs, ok := x.(*ast.IfStmt)
 				if !ok {
 					return true
 				}
 				be, ok := ast.Unparen(ifs.Cond).(*ast.BinaryExpr)
-				if !ok || be.Op != token.EQL || !isNilIdent(info, be.Y) {
+				if !ok || (be.Op != token.EQL && be.Op != token.NEQ) {
 					return true
 				}
-				f := core.FieldOf(info, be.X)
+				fe := be.X
+				if isNilIdent(info, be.X) {
+					fe = be.Y
+				} else if !isNilIdent(info, be.Y) {
+					return true
+				}
+				f := core.FieldOf(info, fe)
 				if f == nil {
 					return true
 				}
 				if _, isSlice := f.Type().Underlying().(*types.Slice); !isSlice {
 					return true
 				}
-				for _, st := range ifs.Body.List {
-					as, ok := st.(*ast.AssignStmt)
-					if !ok || len(as.Lhs) != 1 || len(as.Rhs) != 1 {
-						continue
-					}
-					if core.FieldOf(info, as.Lhs[0]) == f && isMake(info, as.Rhs[0]) {
-						if fields[f] == nil {
-							fields[f] = &lazyField{f: f, builders: map[*types.Func]bool{}}
+				if be.Op == token.EQL {
+					// the build happens inside this if
+					for _, st := range ifs.Body.List {
+						if as, ok := st.(*ast.AssignStmt); ok && len(as.Lhs) == 1 && len(as.Rhs) == 1 && core.FieldOf(info, as.Lhs[0]) == f && isMake(info, as.Rhs[0]) {
+							tested[f] = true
 						}
+					}
+				} else if len(ifs.Body.List) == 1 && ifs.Else == nil {
+					// `if x.F != nil { return }` — already built, nothing else to do
+					if rs, ok := ifs.Body.List[0].(*ast.ReturnStmt); ok && len(rs.Results) == 0 {
+						tested[f] = true
+					}
+				}
+				return true
+			})
+			if len(tested) == 0 {
+				continue
+			}
+			ast.Inspect(fd.Body, func(x ast.Node) bool {
+				as, ok := x.(*ast.AssignStmt)
+				if !ok || len(as.Lhs) != 1 || len(as.Rhs) != 1 {
+					return true
+				}
+				if f := core.FieldOf(info, as.Lhs[0]); f != nil && tested[f] && isMake(info, as.Rhs[0]) {
+					if fields[f] == nil {
+						fields[f] = &lazyField{f: f, builders: map[*types.Func]bool{}}
 					}
 				}
 				return true
@@ -1184,7 +1210,7 @@ func RNameOnce(c *core.Ctx) {
 				if fn == nil {
 					return true
 				}
-				if fn.Name() == "consumeAutocap" || fn.Name() == "noteCaptureSlot" || fn.Name() == "consumeCaptureSlot" {
+				if core.BaseName(fn) == "consumeAutocap" || core.BaseName(fn) == "noteCaptureSlot" || core.BaseName(fn) == "consumeCaptureSlot" {
 					ord++
 					c.Check(inGuard(y), fmt.Sprintf("%s / state change #%d is inside the first-occurrence branch", name, ord), y.Pos(), "%s() runs for every occurrence of the key: a repeated group name takes a slot in the pre-scan that the main parse never hands out", fn.Name())
 				}
@@ -1328,7 +1354,7 @@ func sameFieldLoadFn(fn *ssa.Function, a, b ssa.Value, firstLast bool) bool {
 				return false
 			}
 			if fx != fy {
-				if !(top && firstLast && fx.Name() == "Last" && fy.Name() == "First") {
+				if !(top && firstLast && core.BaseName(fx) == "Last" && core.BaseName(fy) == "First") {
 					return false
 				}
 			}
@@ -1772,7 +1798,7 @@ func RNodeOpts(c *core.Ctx) {
 				return true
 			}
 			fn := core.Callee(info, call)
-			if fn == nil || !strings.HasPrefix(fn.Name(), "newRegexNode") || len(call.Args) < 2 {
+			if fn == nil || !strings.HasPrefix(core.BaseName(fn), "newRegexNode") || len(call.Args) < 2 {
 				return true
 			}
 			ord++
@@ -1800,7 +1826,7 @@ func RNodeOpts(c *core.Ctx) {
 									found = true
 								}
 							case *ast.CallExpr:
-								if f2 := core.Callee(info, z); f2 != nil && (f2.Name() == "useOptionI" || strings.Contains(f2.Name(), "articipateInCaseConversion")) {
+								if f2 := core.Callee(info, z); f2 != nil && (core.BaseName(f2) == "useOptionI" || strings.Contains(core.BaseName(f2), "articipateInCaseConversion")) {
 									found = true
 								}
 							}
@@ -2611,7 +2637,7 @@ func RTentative(c *core.Ctx) {
 					restores = append(restores, call)
 				}
 			}
-			if fn := core.Callee(info, call); fn != nil && strings.HasPrefix(fn.Name(), "add") {
+			if fn := core.Callee(info, call); fn != nil && strings.HasPrefix(core.BaseName(fn), "add") {
 				if sig, ok := fn.Type().(*types.Signature); ok && sig.Recv() != nil {
 					if _, tn := core.NamedOf(sig.Recv().Type()); tn == "CharSet" {
 						adds = append(adds, call)
@@ -2784,7 +2810,7 @@ func RUnionNeg(c *core.Ctx) {
 				return true
 			}
 			fn := core.Callee(info, call)
-			if fn == nil || fn.Name() != "addCategories" {
+			if fn == nil || core.BaseName(fn) != "addCategories" {
 				return true
 			}
 			ord++
@@ -2943,7 +2969,7 @@ func RTextSlice(c *core.Ctx) {
 					return true
 				}
 				_, tn := core.NamedOf(sig.Recv().Type())
-				if (tn == "Capture" || tn == "Group" || tn == "Match") && (fn.Name() == "String" || fn.Name() == "Runes") {
+				if (tn == "Capture" || tn == "Group" || tn == "Match") && (core.BaseName(fn) == "String" || core.BaseName(fn) == "Runes") {
 					nBad++
 					c.Visit(name)
 					c.Bad(fmt.Sprintf("%s / text taken from re-encoded runes #%d", name, nBad), y.Pos(), "%s.%s() rebuilds the text from decoded runes: invalid bytes of the input come back as U+FFFD; cut the result out of the input with the byte range instead", tn, fn.Name())
